@@ -45,10 +45,10 @@ def main(ctx, args):
     plan = [("scalar", 800, False), ("scalar_tself", 400, False), ("scalar_deep", 300, False), ("nolam", 700, False), ("records", 300, False),
             ("aggr", 400, False), ("scalar", 200, True),
             # closures (captured reads and writes, lambdas inside lambdas): both back ends agree on them since ee06339 / 4f22791
-            ("core", 400, False), ("closure_assign", 200, False), ("nested", 200, False), ("nested_assign", 200, False)] if ctx.tier == "quick" else \
+            ("core", 400, False), ("closure_assign", 200, False), ("nested", 300, False), ("nested_assign", 600, False)] if ctx.tier == "quick" else \
            [("scalar", 8000, False), ("scalar_tself", 4000, False), ("scalar_deep", 3000, False), ("nolam", 8000, False), ("records", 3000, False),
             ("aggr", 4000, False), ("scalar", 2000, True),
-            ("core", 4000, False), ("closure_assign", 2000, False), ("nested", 2000, False), ("nested_assign", 2000, False)]
+            ("core", 4000, False), ("closure_assign", 2000, False), ("nested", 2000, False), ("nested_assign", 6000, False)]
     allcases = []
     gstats = collections.Counter()
     if args.replay:
@@ -56,6 +56,9 @@ def main(ctx, args):
         allcases = [{"id": "replay", "src": r["src"], "sx": r.get("sx"), "inputs": r.get("inputs", []), "times": r.get("times", 16),
                      "scheduler": r.get("scheduler", False)}]
     else:
+        import c02
+        allcases = c02.corpus_cases("C01")          # hand-written programs first (corpus/C01)
+        gstats["corpus_programs"] += len(allcases)
         off = 0
         for prof, n, sched in plan:
             cs, st = pc.gen_cases(ctx.seed, n, prof, times, start=off)
